@@ -29,7 +29,7 @@ func (t *c15Trace) add(id interface{}, s string) {
 	t.byReq[k] = append(t.byReq[k], s)
 }
 
-func c15MW(i int, beh string, tr *c15Trace) mcp.Middleware {
+func c15MW(i int, beh string, tr *c15Trace, only string) mcp.Middleware {
 	return func(next mcp.HandlerFunc) mcp.HandlerFunc {
 		return func(ctx context.Context, req *mcp.JSONRPCRequest) (mcp.JSONRPCMessage, error) {
 			sid := ""
@@ -39,6 +39,10 @@ func c15MW(i int, beh string, tr *c15Trace) mcp.Middleware {
 				sid = s.GetID()
 			}
 			tr.add(req.ID, fmt.Sprintf("%d:before:%s", i, sid))
+			beh := beh
+			if only != "" && req.Method != only {
+				beh = "pass"
+			}
 			switch beh {
 			case "short":
 				return &mcp.CallToolResult{Content: []mcp.Content{mcp.NewTextContent(fmt.Sprintf("short%d", i))}}, nil
@@ -141,10 +145,10 @@ func c15Cases(tier string) []c15Case {
 	return out
 }
 
-func c15Rig(mode, form string, chain []string, tr *c15Trace, hlog *hx.Log) *Rig {
+func c15Rig(mode, form string, chain []string, tr *c15Trace, hlog *hx.Log, only string) *Rig {
 	var mws []mcp.Middleware
 	for i, b := range chain {
-		mws = append(mws, c15MW(i, b, tr))
+		mws = append(mws, c15MW(i, b, tr, only))
 	}
 	var opts []interface{}
 	if mode == "ls" {
@@ -247,7 +251,7 @@ func c15Eval(tier string, i int) CaseResult {
 	res := vsched.Run(vsched.Config{}, func() {
 		tr := &c15Trace{byReq: map[string][]string{}}
 		hlog := &hx.Log{}
-		r := c15Rig(cs.Mode, cs.Form, cs.Chain, tr, hlog)
+		r := c15Rig(cs.Mode, cs.Form, cs.Chain, tr, hlog, "")
 		rp := NewRawPeer(r)
 		// the handshake itself goes through the chain: use a passing prelude only when the chain lets initialize through
 		sid := ""
@@ -311,7 +315,7 @@ func c15Concurrent(prefix []int, mode string, chain []string) explore.Outcome {
 		vsched.SetBranching(false)
 		tr := &c15Trace{byReq: map[string][]string{}}
 		hlog := &hx.Log{}
-		r := c15Rig(mode, "single", chain, tr, hlog)
+		r := c15Rig(mode, "single", chain, tr, hlog, "tools/call")
 		peers := []*RawPeer{NewRawPeer(r), NewRawPeer(r)}
 		for _, p := range peers {
 			if err := p.Handshake(); err != nil {
